@@ -21,7 +21,7 @@ RULE = ("(a) fluid reference: networks containing PS nodes (sharing capacity 1-3
         "and a one-server FIFO ciw.Node fed with the same arrivals and per-customer requirements empty at the same instants.  "
         "Non-trivial (a): >= 3 customers overlapping in service at a PS node; distinct by digest.")
 ASSUMPTIONS = ["tie-free inputs (continuous distributions); tolerance 1e-9 relative on predicted dates"]
-WALL = {"quick": 50, "thorough": 540}
+WALL = {"quick": 150, "thorough": 540}
 
 ALLOWED = ["ps", "inf", "priorities", "batching", "routing_objects", "self_loops", "cc_after", "process_routing", "discipline"]
 
@@ -236,7 +236,7 @@ def subchecks(tier):
                      budget=700, resumptions=(1, 1), excluded=("ps_priorities",))
     return [
         system_subcheck("fluid", prof, lambda spec: [PSMonitor(spec)], nontrivial, classes=classes, log=True,
-                        n={"quick": 2400, "thorough": 40000}, rule="records at PS nodes vs exact-rational fluid model; sharing monitor"),
-        SubCheck("busy_periods", busy_execute, strategy=busy_case(), n={"quick": 1600, "thorough": 20000}, kind="metamorphic", is_spec=False,
+                        n={"quick": 7200, "thorough": 40000}, rule="records at PS nodes vs exact-rational fluid model; sharing monitor"),
+        SubCheck("busy_periods", busy_execute, strategy=busy_case(), n={"quick": 4800, "thorough": 20000}, kind="metamorphic", is_spec=False,
                  rule="single unlimited PS node vs one-server FIFO node, same arrivals and keyed requirements: emptying instants coincide"),
     ]
